@@ -205,6 +205,8 @@ def gen_programs(ctx):
     for k in (1021, 1022, 1023, 1024, 1025, 1030):
         P.append([55] * k + [50])
         P.append([55] * k + [48])
+        P.append([55] * k + [6] * (k - 1) + [48])       # the whole stack folded back into one value: finishes iff the peak depth k stays below STACK_MAX
+        P.append([55] * k + [7] + [6] * (k - 2) + [48])
     # malformed stream: the loader's verdict must agree with the model's
     for _ in range(3000 if ctx.quick() else 50000):
         k = r.randrange(6)
